@@ -121,7 +121,7 @@ Proof.
       pose proof (LInv_NoDup_sh _ _ _ _ HL) as ND.
       destruct (res_cases nom o1 ROk eq_refl Hres) as [(_ & Hacc)|(K & _)]; [|congruence].
       split.
-      * right. split; [exact Hcl|]. right. right. split; [reflexivity|]. split; [exact Hrot|].
+      * right. split; [exact Hcl|]. right. split; [reflexivity|]. split; [exact Hrot|].
         apply (RV_intro2 c (nb + 1) (set_failed w) w (sh d) (e_disk e') nom).
         -- eapply LInv_mono; [|exact HL]. lia.
         -- exact Hsp.
@@ -188,7 +188,7 @@ Proof.
           assert (Hx : In n (rem (ws_name tw) X)) by (apply (drel_stale_ok _ _ _ Hrel1 HN1 n f Hl); congruence).
           destruct (HXr n Hx) as (Hx1 & Hx2). apply (HXg n Hx1 Hx2). }
         split.
-        -- right. split; [exact Hcl|]. right. right. split; [reflexivity|]. split; [exact Hrot|].
+        -- right. split; [exact Hcl|]. right. split; [reflexivity|]. split; [exact Hrot|].
            apply (RV_ext c (nb + 1) (set_tail w (Some tw'))); [reflexivity|reflexivity|].
            rewrite <- Hsps. apply RV_of_seal. exact HS.
         -- rewrite Hd. apply (RD_rel c (nb + 1) (e_disk e1) (e_disk ec1) (rem (ws_name tw) X) alts' defer).
